@@ -21,7 +21,7 @@ func init() {
 		Doc: "the variadic cases of the dispatcher (merge, zip) evaluate and type-check every argument before producing a result: inside the loop over the argument list only error returns occur (not_null, which the specification defines as short-circuiting, is the listed exception)",
 		Run: ruleEVarargsAll})
 	register(&Rule{ID: "P-CONSTINDEX", Props: []string{"C03", "C04", "C16", "C11"}, Floor: 1,
-		Doc: "in the literal decoders of the parser every constant index and constant slice bound on the text being decoded is in range by a dominating length fact (len(v) < k exit, len(v) == 0 exit), by the scanning idiom (the text after a backslash found by IndexByte that is not the last byte), or by slicing off a known-length prefix",
+		Doc: "in the JSON literal decoder of the parser (the other two literal decoders are covered by P-DECODE) every constant index and constant slice bound on the text being decoded is in range by a dominating length fact (len(v) < k exit, len(v) == 0 exit), by the scanning idiom (the text after a backslash found by IndexByte that is not the last byte), or by slicing off a known-length prefix",
 		Run: rulePConstIndex})
 	register(&Rule{ID: "E-JSONNUMBER-CAST", Props: []string{"C05", "C18", "C02", "C14", "C16", "C08"}, Floor: 1,
 		Doc: "no string is re-typed as json.Number inside the evaluator: json.Number values are trusted to hold number text (validated by encoding/json), so casting arbitrary text lets NaN, Infinity or digit separators pass for numbers",
@@ -395,12 +395,17 @@ func rulePConstIndex(p *Program, r *Reporter) {
 			}
 		}
 	}
-	for _, kind := range []string{"json", "quoted", "string"} {
+	// the JSON literal decoder; the decoders of quoted identifiers and raw strings are interpreted on texts of every
+	// shape by P-DECODE, which reports every read or cut beyond the text
+	for _, kind := range []string{"json"} {
 		if lh[kind] == nil {
 			r.Unknown(token.NoPos, "parser "+kind+" literal decoder", "literal decoder not found")
 			continue
 		}
 		addClosure(lh[kind])
+	}
+	for _, kind := range []string{"quoted", "string"} {
+		delete(seenFn, lh[kind]) // a decoder shared with the JSON one would still be scanned
 	}
 	for _, fn := range fns {
 		fname := fn.Name()
